@@ -45,3 +45,18 @@ package eventlog
 //@   sweep[C07] nil index slice div makeslice typeassert panic
 //@   ensures[C07] rdLeft[ref(r)] >= 0 && rdLeft[ref(r)] <= old(rdLeft)[ref(r)]
 //@   ensures[C07,C18] err == nil ==> rdLeft[ref(r)] <= old(rdLeft)[ref(r)] - 4
+
+// C18 (strictness): a successful decode has examined the whole input: everything after the last field was read to
+// the end and every one of those bytes is zero (the documented trailing padding), nothing is silently ignored.
+//@ func (*SP800155Event3).UnmarshalFromBytes
+//@   modifies rdLeft
+//@   requires evt != nil
+//@   sweep[C07,C18] nil index slice div typeassert panic makeslice nilmap
+//@   ensures[C18] err == nil ==> drains == old(drains) + 1 && forall(k, 0 <= k && k < len(rest) ==> bytesAt(rest, k) == 0)
+//@   loop 1 invariant forall(k, 0 <= k && k <= rangeindex ==> bytesAt(rest, k) == 0)
+
+// Size-prefixed strings: no input (a zero size included) makes the decoder index outside what it read.
+//@ func (*ByteSizedCStr).Unmarshal
+//@   requires b != nil && r != nil && rdLeft[ref(r)] >= 0
+//@   modifies rdLeft
+//@   sweep[C07,C18]
